@@ -79,6 +79,7 @@ def handle (line : String) : String :=
       let (m, len) := snmpMem d t
       showSnmp (msgDecode fx m len) len
     | _, _ => "bad-input"
+  | ["e", _, _] => "alive"   -- end-to-end line: the models say nothing beyond "squid goes on serving"
   | ["S", dg, tail] =>
     match Bytes.ofHex dg, Bytes.ofHex tail with
     | some d, some t =>
